@@ -19,6 +19,11 @@ def tree_hash(repo):
     files = []
     for top in ("Cargo.toml", "Cargo.lock"):
         files.append(top)
+    if os.path.isdir(os.path.join(repo, "src")):
+        for root, dirs, fs in os.walk(os.path.join(repo, "src")):
+            dirs.sort()
+            for f in sorted(fs):
+                files.append(os.path.relpath(os.path.join(root, f), repo))
     for member in sorted(os.listdir(repo)):
         mp = os.path.join(repo, member)
         if member in ("target", ".git") or not os.path.isdir(mp):
@@ -66,7 +71,7 @@ class CompileError(Exception):
     pass
 
 
-def extract(repo="/repo", target_dir=None, out_dir=None, use_cache=True, log=sys.stderr):
+def extract(repo="/repo", target_dir=None, out_dir=None, use_cache=True, log=sys.stderr, main_json="regexml.main.json", fp_prefix="regexml", lock_name="extract.lock"):
     """Returns the directory holding <crate>.main.json fact files for the tree at `repo`."""
     os.makedirs(CACHE, exist_ok=True)
     build_driver(log)
@@ -75,7 +80,7 @@ def extract(repo="/repo", target_dir=None, out_dir=None, use_cache=True, log=sys
         out_dir = os.path.join(CACHE, "facts", key)
     if target_dir is None:
         target_dir = os.path.join(CACHE, "target")
-    lock = open(os.path.join(CACHE, "extract.lock"), "w")
+    lock = open(os.path.join(CACHE, lock_name), "w")
     fcntl.flock(lock, fcntl.LOCK_EX)
     try:
         marker = os.path.join(out_dir, "OK")
@@ -90,7 +95,7 @@ def extract(repo="/repo", target_dir=None, out_dir=None, use_cache=True, log=sys
         fp = os.path.join(target_dir, "debug", ".fingerprint")
         if os.path.isdir(fp):
             for d in os.listdir(fp):
-                if d.startswith("regexml"):
+                if d.startswith(fp_prefix):
                     shutil.rmtree(os.path.join(fp, d), ignore_errors=True)
         nonce = uuid.uuid4().hex
         env = dict(os.environ)
@@ -109,7 +114,7 @@ def extract(repo="/repo", target_dir=None, out_dir=None, use_cache=True, log=sys
         if r.returncode != 0:
             shutil.rmtree(out_dir, ignore_errors=True)
             raise CompileError(r.stdout[-6000:])
-        main = os.path.join(out_dir, "regexml.main.json")
+        main = os.path.join(out_dir, main_json)
         if not os.path.exists(main):
             shutil.rmtree(out_dir, ignore_errors=True)
             raise CompileError("driver wrote no fact file (cargo skipped the wrapper?)\n" + r.stdout[-3000:])
